@@ -2,6 +2,7 @@
 import rwsearch
 
 TRUSTED = [
+    "translator/py2coq_effpreds.py (fail-closed Python-ast -> Gallina translation of Commutes / Disjoint_Memory / getsets from new_eff.py), used by C01_predicates_commutes",
     "Coq 8.16.1 kernel (coqc, full .vo build of coq/Core); no axioms (Print Assumptions: closed under the global context)",
     "extraction: Require Extraction + ExtrOcamlBasic only (bool/option/unit/list/prod/sumbool/sumor -> OCaml natives); Z, positive, Q stay extracted inductives; ocamlfind ocamlopt; coq/Core/driver.ml (s-expression reader/printer)",
     "harness/export.py: 1:1 structural dump of exo's LoopIR into Core.Syntax terms (srcinfo, memories, precisions erased)",
@@ -14,6 +15,10 @@ TRUSTED = [
 def run(ck):
     ck.coq_build("Core")
     ck.extract("Core")
+    # the definitions of exo's effect predicates (Commutes, ...) are re-translated from new_eff.py and the
+    # theorem that two actions whose exact footprints satisfy Commutes commute is re-checked (engine Par)
+    if ck.gen("Par"):
+        ck.coq_build("Par", props=["Props_C01preds"])
     s = rwsearch.Search(ck, exclude=rwsearch.CONFIG_OPS | rwsearch.SIG_OPS, chain=ck.n(2, 3))
     ctx_stats = {"programs": 0, "queries": 0, "unsound": 0}
 
